@@ -135,8 +135,12 @@ func (err *yamlParseError) Error() string {
 		return fmt.Sprintf("invalid yaml: %s: %s", err.fname,
 			strings.TrimPrefix(err.err.Error(), "yaml: "))
 	}
-	linestr, line, column := getLineByOffset(err.contents,
-		runeIndexToOffset(err.contents, index-err.index)+1)
+	contents := err.contents
+	if err.index == 0 { // the parser does not count a byte order mark
+		contents = strings.TrimPrefix(contents, "\ufeff")
+	}
+	linestr, line, column := getLineByOffset(contents,
+		runeIndexToOffset(contents, index-err.index)+1)
 	line += err.line
 	return fmt.Sprintf("invalid yaml: %s:%d\n%s  %s",
 		err.fname, line, formatLineInfo(linestr, line, column), message)
